@@ -190,3 +190,20 @@ Theorem C13_source_delegations :
   lookup "AsRef<[T]>::as_ref" gen_delegations = Some (DView (VAsSlice "self")) /\
   lookup "AsMut<[T]>::as_mut" gen_delegations = Some (DView (VAsMutSlice "self")).
 Proof. rewrite !tie_deleg_of. repeat split. Qed.
+
+(* ---- T1: which trait methods are implemented (coq/gen/GenSigs.v gen_impl_methods) ---- *)
+From Coq Require Import String.
+From GA Require Import SigTie.
+From GAGen Require Import GenSigs.
+Local Open Scope string_scope.
+
+(* the comparison / hashing / formatting methods the array defines itself (regenerated): ne, lt, le, gt, ge, max, min, clamp, hash_slice are the standard library's defaults over eq / partial_cmp / cmp / hash *)
+Theorem C13_source_impl_methods :
+  methods_of "PartialEq for GenericArray<T,N>" = Some ["eq"] /\
+  methods_of "Eq for GenericArray<T,N>" = Some [] /\
+  methods_of "PartialOrd for GenericArray<T,N>" = Some ["partial_cmp"] /\
+  methods_of "Ord for GenericArray<T,N>" = Some ["cmp"] /\
+  methods_of "Hash for GenericArray<T,N>" = Some ["hash"] /\
+  methods_of "Debug for GenericArray<T,N>" = Some ["fmt"].
+Proof. repeat split. Qed.
+
